@@ -22,7 +22,7 @@ import (
 )
 
 type c17Probe struct {
-	Defect  string // "D1" ... "D12"
+	Defect  string // "D1" ... "D15"
 	Name    string // readable defect name
 	Variant string
 	Files   []string
@@ -147,6 +147,17 @@ var c17Probes = []c17Probe{
 	{"D14", "template-name-defined-by-non-user-package-in-another-file", "imported-macro", []string{
 		"(in-package 'lib)\n(export 'm1)\n(defmacro m1 (e) (quasiquote (+ (hh (unquote e)) 1)))\n",
 		"(in-package 'app)\n(use-package 'lib)\n(defun hh (v) (* v 10))\n(debug-print (m1 2))\n"}, c17Defaults},
+	// D15 — an anaphoric template: a free name of the template is bound LOCALLY around the macro call
+	// (side finding of the round-9 seeding agent; the preservation set of 5b0c6f8 keeps only GLOBAL
+	// definitions spelled like a template name, and the repository's own test
+	// TestMinifySource_MacroTemplateBindersDoNotBlockUnrelatedRenames pins that a local spelled like a
+	// name the template binds itself is still renamed, so "keep every binding of that spelling" is not
+	// a repair the suite accepts; telling free template names from bound ones needs an analysis of the
+	// template).  The random workload never binds a template's free name locally, so no leak key.
+	{"D15", "anaphoric-template-name-bound-locally-at-the-use-site", "let-local", []string{
+		"(defmacro with-acc (expr) (quasiquote (+ acc (unquote expr))))\n(defun f (n) (let ([acc 10]) (with-acc n)))\n(debug-print (f 1))\n"}, c17Defaults},
+	{"D15", "anaphoric-template-name-bound-locally-at-the-use-site", "parameter@rename-params", []string{
+		"(defmacro with-acc (expr) (quasiquote (+ acc (unquote expr))))\n(defun f (acc n) (with-acc n))\n(debug-print (f 10 1))\n"}, c17Cfg{PreserveParams: false}},
 }
 
 // c17QuietDefects: defects found while extending the workload whose probes are
